@@ -59,6 +59,19 @@ std::string probe_ring(const D& F) {
     return os.str();
 }
 
+// GFqDom: the ring probe plus the initialisation from a coefficient vector (p-adic digits), also of degree >= k
+template <class D>
+std::string probe_gfq(const D& F) {
+    std::ostringstream os;
+    os << probe_ring<D>(F) << ' ';
+    typename D::Element r;
+    std::vector<typename D::Element> lo = {1, 1};
+    std::vector<typename D::Element> hi = {1, 0, 1, 1, 0, 1, 1, 0, 1, 1};
+    F.init(r, lo); F.write(os, r) << ' ';
+    F.init(r, hi); F.write(os, r);
+    return os.str();
+}
+
 template <class PD>
 std::string probe_poly(const PD& P) {
     std::ostringstream os;
@@ -96,6 +109,7 @@ struct BoxT : Box {
 };
 
 template <class D> using RingBox = BoxT<D, probe_ring<D>>;
+template <class D> using GFqBox = BoxT<D, probe_gfq<D>>;
 
 // polynomial domain over Modular<int32_t>: the box owns the coefficient field too
 struct PolyBox : Box {
@@ -131,9 +145,9 @@ inline const std::map<std::string, Maker>& kinds() {
         {"ModularExtended_double", [](int i) -> Box* { return new RingBox<ModularExtended<double>>(i ? 1125899906842597. : 101.); }},
         {"Montgomery_int32", [](int i) -> Box* { return new RingBox<Montgomery<int32_t>>(i ? 40499 : 101); }},
         {"Montgomery_ruint7", [](int i) -> Box* { return new RingBox<Montgomery<RecInt::ruint<7>>>(RecInt::ruint<7>(i ? 4294967291u : 101u)); }},
-        {"GFqDom_int32", [](int i) -> Box* { return i ? new RingBox<GFqDom<int32_t>>(3, 4) : new RingBox<GFqDom<int32_t>>(5, 2); }},
-        {"GFqDom_int64", [](int i) -> Box* { return i ? new RingBox<GFqDom<int64_t>>(2, 8) : new RingBox<GFqDom<int64_t>>(7, 2); }},
-        {"Extension_GFq", [](int i) -> Box* { return i ? new RingBox<Extension<GFqDom<int32_t>>>(3, 7) : new RingBox<Extension<GFqDom<int32_t>>>(5, 4); }},
+        {"GFqDom_int32", [](int i) -> Box* { return i ? new GFqBox<GFqDom<int32_t>>(3, 4) : new GFqBox<GFqDom<int32_t>>(5, 2); }},
+        {"GFqDom_int64", [](int i) -> Box* { return i ? new GFqBox<GFqDom<int64_t>>(2, 8) : new GFqBox<GFqDom<int64_t>>(7, 2); }},
+        {"Extension_GFq", [](int i) -> Box* { return i ? new RingBox<Extension<GFqDom<int32_t>>>(3, 12) : new RingBox<Extension<GFqDom<int32_t>>>(5, 4); }},
         {"Poly1Dom_Modular_int32", [](int i) -> Box* { return new PolyBox(i ? 65521 : 101); }},
     };
     return K;
